@@ -41,7 +41,7 @@ def draw_nrows(r, small=False):
                      (r.randrange(300, 6001), 0.5)])
 
 
-def draw_table(r, form, delim=None, simple=False, strsafe=False, nrows=None, fields=None, small=False):
+def draw_table(r, form, delim=None, simple=False, strsafe=False, nrows=None, fields=None, small=False, huge=False):
     if fields is None and nrows is None and chance(r, 0.04):
         # size coincidences: rows of 2**m bytes and 2**k of them, so that the data region is an exact multiple
         # of the block and buffer sizes a reader or writer may work in (4 KiB .. 64 KiB, rarely 16 MiB)
@@ -49,7 +49,7 @@ def draw_table(r, form, delim=None, simple=False, strsafe=False, nrows=None, fie
         if form == "bin":
             rowsize = sum({"1": 1, "2": 2, "4": 4, "8": 8}.get(f["t"][1:], int(f["t"][1:]) if f["t"][0] == "S" else 8) for f in fields)
             lg = (rowsize - 1).bit_length()
-            k = wpick(r, [(r.randrange(6, 13), 6), (13, 2), (16 - lg, 3), (17 - lg, 1), (24 - lg, 0.12)])
+            k = wpick(r, [(r.randrange(6, 13), 6), (13, 2), (16 - lg, 3), (17 - lg, 1), (24 - lg, 0.12 if huge else 0)])
         else:
             rowchars = sum(int(f["t"][1:]) for f in fields) + len(fields)
             lg = (rowchars - 1).bit_length()
@@ -129,7 +129,7 @@ def caller_roundtrip(r, pfx, form, avoid, delims):
             ops.append({"k": "create", "p": p, "form": "sfile", "delim": od, "entry": pick(r, SF_CREATE),
                         "tab": draw_table(r, "txt" if od else "bin", od, simple=True, nrows=r.randrange(50, 400)),
                         "hdr": None})
-        tab = draw_table(r, form, delim)
+        tab = draw_table(r, form, delim, huge=(form == "bin"))
         hdr = T.gen_header(r) if fform == "sfile" else None
         if form == "txt" and chance(r, 0.25):
             # C04: the table reaches the file in several blocks through ONE writer handle, later blocks in
@@ -194,12 +194,17 @@ def draw_selection(r, fields, n, kind, form_sfile):
         if chance(r, 0.15):
             v = list(range(n))
             r.shuffle(v)
-        rows = {"t": "list", "v": v, "c": pick(r, ["list", "tuple", "array"]), "dt": pick(r, ["i8", "i4", "u2"])}
+        rows = {"t": "list", "v": v, "c": pick(r, ["list", "tuple", "array"]),
+                "dt": pick(r, ["i8", "i4", "u2"] if n < 60000 else ["i8", "i4"])}
     elif rk == "slice":
         def bound():
             return None if chance(r, 0.25) else r.randrange(-n - 2, n + 3)
         step = wpick(r, [(None, 3), (1, 2), (2, 2), (3, 1), (r.randrange(1, n + 3), 1)])
         rows = {"t": "slice", "v": [bound(), bound(), step]}
+        if chance(r, 0.3):
+            # subsampling to (about) the end of the table: [s::step] and friends
+            step = pick(r, [2, 2, 3, 4, 5, 8, 16])
+            rows = {"t": "slice", "v": [r.randrange(0, step), pick(r, [None, None, n, n - 1, n + 1, -1]), step]}
     ck = wpick(r, [("none", 3), ("name", 3), ("list", 4)])
     cols = None
     if ck == "name":
